@@ -25,6 +25,7 @@ def fld(n, base=CC):
 def run(ck):
     ck.rule('C19.a', 'every data[] access of the ring operations is proved in range from the invariant and the path guards; data[tail] is read only when tail != datasize (non-empty)')
     ck.rule('C19.b', 'index-range invariant head < datasize, tail <= datasize is preserved by every operation (stores are % capacity, the sentinel, head, or 0); size() is within [0, capacity] and >= 1 when non-empty')
+    ck.rule('C19.d', 'single-step transition relation of every operation on (data, head, tail, datasize) equals the queue step it stands for (drop / evict-oldest / append at head / take at tail / clear), size formula by case, predicates exact')
     ck.rule('C19.c', 'iterators: steps = size(), size = capacity, start index tail resp. head-1 (mod capacity); done iff steps == 0; advance decrements steps exactly once and keeps index < size')
     ck.not_decided += ['queue semantics (oldest-first, drop/evict policy, size/full/empty agreeing with a queue model, iterator order) over all histories: '
                        'a data-content property of modular index arithmetic; needs state exploration or a solver (different technique family)',
@@ -83,6 +84,7 @@ def run(ck):
         ck.verdict(bad_a is None, 'C19.a', fn, where, 'all data[] accesses in range' if bad_a is None else bad_a)
         ck.verdict(bad_b is None, 'C19.b', fn, where, 'index-range invariant preserved' if bad_b is None else bad_b)
     ck.floor('C19.a', 'data[] accesses in ring operations', n_acc, 2)
+    rule_shapes(ck, u, so, inv, head, tail, ds)
     # init establishes the invariant
     if u.fn('octet_ring_init'):
         ck.function('octet_ring_init')
@@ -188,3 +190,130 @@ def strip(t):
     while t is not None and t[0] == 'cast':
         t = t[2]
     return t
+
+
+def rule_shapes(ck, u, so, inv, head, tail, ds):
+    """C19.d: the single-step transition relation of each operation on the
+    representation (data, head, tail, datasize) equals the queue step it stands for.
+    Representation: queued elements are data[tail], data[tail+1 mod ds], ... up to
+    head-1; tail == ds encodes empty; head == tail encodes full."""
+    eng = sym.Engine(u, sizeof=so, inline={'octet_ring_empty', 'octet_ring_full', 'octet_ring_advance_head', 'octet_ring_advance_tail'})
+    eng.record_loads = True
+    H, T, D, DATA, OV = fld('head'), fld('tail'), fld('datasize'), fld('data'), fld('override_if_full')
+
+    def nxt(x):
+        return ('%', sym.add(x, C(1)), D)
+
+    def conds_of(p):
+        return p.cond_terms()
+    # predicates
+    for fn, want in (('octet_ring_empty', ('cmp', '==', T, D)), ('octet_ring_full', ('cmp', '==', H, T))):
+        e0 = sym.Engine(u, sizeof=so, inline=set())
+        ps = e0.paths(fn)
+        ok = len(ps) == 1 and ps[0].ret in (want, ('cmp', '==', want[3], want[2]))
+        ck.verdict(ok, 'C19.d', fn, cast.where(u.fn(fn)), '%s iff %s' % (fn.split('_')[-1], fmt(want)) if ok else '%s is %s' % (fn, fmt(ps[0].ret) if ps and ps[0].ret else None))
+    # get
+    ps = eng.paths('octet_ring_get')
+    bad = None
+    kinds = set()
+    for p in ps:
+        cs = conds_of(p)
+        empty = ('cmp', '==', T, D) in cs
+        h2, t2 = sym.mem_read(p.mem, H), sym.mem_read(p.mem, T)
+        dst = [e for e in p.stores() if e.name[0] == 'i']
+        if dst:
+            bad = 'get writes into the element array'
+        if empty:
+            kinds.add('empty')
+            if p.ret != C(0) or h2 != H or t2 != T:
+                bad = 'get on an empty ring returns %s / changes the indices' % fmt(p.ret)
+            continue
+        kinds.add('take')
+        if strip(p.ret) != ('i', DATA, T):
+            bad = 'get returns %s, the oldest element is data[tail]' % fmt(p.ret)
+        if h2 != H:
+            bad = 'get moves head'
+        becomes_empty = ('cmp', '==', nxt(T), H) in cs
+        if becomes_empty:
+            if t2 != D:
+                bad = 'taking the last element leaves tail = %s, expected the empty encoding' % fmt(t2)
+        else:
+            if strip(t2) != nxt(T):
+                bad = "get sets tail' = %s, expected (tail + 1) %% datasize" % fmt(t2)
+    if kinds != {'empty', 'take'}:
+        bad = bad or 'get arms found: %s' % sorted(kinds)
+    ck.verdict(bad is None, 'C19.d', 'octet_ring_get', cast.where(u.fn('octet_ring_get')),
+               'empty: returns 0 unchanged; else returns data[tail] and advances tail (empty encoding when it meets head)' if bad is None else bad)
+    # put
+    ps = eng.paths('octet_ring_put')
+    bad = None
+    kinds = set()
+    item = ('v', 'item')
+    for p in ps:
+        cs = conds_of(p)
+        full = ('cmp', '==', H, T) in cs
+        st = [e for e in p.stores() if e.name[0] == 'i']
+        h2, t2 = sym.mem_read(p.mem, H), sym.mem_read(p.mem, T)
+        ovr = any(c[0] == 'cmp' and c[1] == '!=' and c[2] == OV and c[3] == C(0) for c in cs)
+        if full and not ovr:
+            kinds.add('drop')
+            if st or h2 != H or t2 != T:
+                bad = 'put on a full ring without override modifies the ring (it must be dropped)'
+            continue
+        if len(st) != 1 or st[0].name != ('i', DATA, H) or strip(st[0].args[0]) != item:
+            bad = 'put stores %s, expected data[head] := item' % ([str(e)[:60] for e in st])
+            continue
+        if strip(h2) != nxt(H):
+            bad = "put sets head' = %s, expected (head + 1) %% datasize" % fmt(h2)
+        if full and ovr:
+            kinds.add('evict')
+            # the oldest element (at tail == head) is given up: tail advances past it
+            evict_empty = ('cmp', '==', nxt(T), H) in cs
+            if evict_empty:
+                if strip(t2) != H:
+                    bad = 'override on a one-element... tail after eviction is %s' % fmt(t2)
+            elif strip(t2) != nxt(T):
+                bad = "override put leaves tail' = %s, expected (tail + 1) %% datasize (oldest element evicted)" % fmt(t2)
+        else:
+            was_empty = ('cmp', '==', T, D) in cs
+            if was_empty:
+                kinds.add('first')
+                if strip(t2) != H:
+                    bad = "first element: tail' = %s, expected the old head" % fmt(t2)
+            else:
+                kinds.add('append')
+                if t2 != T:
+                    bad = 'append moves tail'
+    if not {'drop', 'evict', 'first', 'append'} <= kinds:
+        bad = bad or 'put arms found: %s' % sorted(kinds)
+    ck.verdict(bad is None, 'C19.d', 'octet_ring_put', cast.where(u.fn('octet_ring_put')),
+               'full: dropped, or with override the oldest element is evicted first; element stored at data[head], head advances; first element sets tail to it' if bad is None else bad)
+    # clear
+    ps = eng.paths('octet_ring_clear')
+    ok = all(sym.mem_read(p.mem, T) == D and sym.mem_read(p.mem, H) == H and not [e for e in p.stores() if e.name[0] == 'i'] for p in ps)
+    ck.verdict(ok, 'C19.d', 'octet_ring_clear', cast.where(u.fn('octet_ring_clear')), 'clear sets the empty encoding and nothing else' if ok else 'clear does not set tail = datasize only')
+    # size formula
+    ps = eng.paths('octet_ring_size')
+    bad = None
+    for p in ps:
+        cs = conds_of(p)
+        if ('cmp', '==', T, D) in cs:
+            if p.ret != C(0):
+                bad = 'size of an empty ring is %s' % fmt(p.ret)
+        elif ('cmp', '<', T, H) in cs:
+            d = L(p.ret) - (head - tail)
+            if not (d.is_const() and d.c == 0):
+                bad = 'size with tail < head is %s, expected head - tail' % fmt(p.ret)
+        else:
+            d = L(p.ret) - (ds - tail + head)
+            if not (d.is_const() and d.c == 0):
+                bad = 'size of a wrapped/full ring is %s, expected datasize - tail + head' % fmt(p.ret)
+    ck.verdict(bad is None, 'C19.d', 'octet_ring_size', cast.where(u.fn('octet_ring_size')), 'size = 0 / head - tail / datasize - tail + head by case' if bad is None else bad)
+    # override flag and inspect
+    ps = eng.paths('octet_ring_override_if_full')
+    ok = all(sym.mem_read(p.mem, OV) == ('v', 'state') and sym.mem_read(p.mem, T) == T and sym.mem_read(p.mem, H) == H for p in ps)
+    ck.verdict(ok, 'C19.d', 'octet_ring_override_if_full', cast.where(u.fn('octet_ring_override_if_full')), 'mode change stores the flag only' if ok else 'mode change touches more than the flag')
+    if u.fn('octet_ring_inspect'):
+        ps = eng.paths('octet_ring_inspect')
+        ok = all(strip(p.ret) == ('i', DATA, ('f', ('v', 'iter'), 'index')) for p in ps)
+        ck.verdict(ok, 'C19.d', 'octet_ring_inspect', cast.where(u.fn('octet_ring_inspect')), 'inspect returns data[iter->index]' if ok else 'inspect does not return data[iter->index]')
